@@ -35,7 +35,7 @@ LEVEL_NOTE = ('Trusted: Lean kernel, py2lean subset semantics, NumPy slicing/bro
               'Field(data=[]) whose cached extent is (0,0,0,0) — the model treats it as the zero field; it is a sentinel that the only caller '
               '(Plane.multiply) drops, and the composition cases (product -> mul/merge/reduce/insert) drop it the same way.')
 TECHNIQUE = 'Lean 4 proof (omega/induction) over translator-regenerated index kernel + hand model with differential correspondence'
-GEN = ['Extent', 'FieldIdx', 'FieldMerge', 'FieldDispatch', 'FieldAccum', 'FieldBroadcast', 'FieldMulArray', 'FieldInit', 'FieldMergeFlow', 'FieldReduceFlow', 'FieldOverlapPair', 'FieldMergeOrigin', 'FieldPublicFlow']
+GEN = ['Extent', 'FieldIdx', 'FieldMerge', 'FieldDispatch', 'FieldAccum', 'FieldBroadcast', 'FieldMulArray', 'FieldInit', 'FieldMergeFlow', 'FieldReduceFlow', 'FieldOverlapPair', 'FieldMergeOrigin', 'FieldPublicFlow', 'FieldMulScalar']
 OPS = ['C06']
 RULE = ('cases: extent pairs, bounding boxes (boundary) of 1..5 fields incl. wholly negative, field products (array/array, '
         'scalar/array, scalar/scalar, 0-d), merges (_merge and public merge with both enforce_overlap values, equal/different '
@@ -91,7 +91,7 @@ ASSUMPTIONS = ['merge/reduce never raise (mergeZ_total, reduce_defined, reduceZ_
                'the tests generated into Gen.FieldDispatch are consumed by the models: Fld.mul (size test, offset comparison), disjoint '
                'and disjointZ (step constants), GroupZ.out / overlapL / mergePublic (thresholds); closed forms: Fld.mul_closed, '
                'disjoint_succ_some, GroupZ.out_eq, overlapL_two/many, mergePublic_eq; insertArr / insertArrMode evaluate the generated '
-               'accumulation terms of insert (Gen.FieldAccum; insertTerm_eq, insert_accum_spec, insert_mode_eq). _mul_broadcast is regenerated whole (Gen.FieldBroadcast.mulBroadcast: shape test, both size tests, broadcast targets, inherited offsets; the arrays enter through .shape/.size and np.broadcast_to as a flag) and proved equal to the broadcast step of Fld.mul for every pair not both one-element (mul_broadcast_spec, mul_via_gen_broadcast); the same function is regenerated a second time with shapes that may be () (Gen.mulBroadcastZ: a shape is the triple (ndim, d0, d1), () = (0, 1, 1)) and proved to return two 2-D operands, those of the 2-D translation on the 1x1 reading of 0-d data, whenever __mul__ goes to _mul_array (mul_broadcast_zd_spec: why ZFld.mul may run Fld.mul); the both-0-d product goes through _mul_scalar. Field._mul_array after that call is regenerated too (Gen.FieldMulArray.mulArrayIdx: both array_extent calls, the intersect test, intersection_slices, intersection_shift, calling Gen.Extent) and proved to be the index flow of Fld.mulArr for all fields (mul_array_spec; end to end on generated definitions: mul_via_gen); its array product `self_data[self_slice] * other_data[other_slice]`, the empty result and the argument order of the _mul_broadcast call are matched textually by the translator hook. Field.__init__ is regenerated (Gen.FieldInit: the offset default [0, 0] and the cached extent = array_extent(self.shape, self.offset); the data / pixelscale / tilt assignments and the property Field.shape are matched textually): the cached extent is Fld.extent and the pixel set of the data (field_init_extent_spec), the default is the origin-centred field (field_init_default_spec). The statements of _merge after the pixelscale guard are regenerated (Gen.FieldMergeFlow: np.zeros canvas of _merge_shape, slices = _merge_slices, `out[slc] += field.data` per field in zip order, Field(data=out, offset=_merge_offset); guard, zip order and the Field(...) arguments matched structurally) and run by Lentil.mergeFlowL (Model/FieldMergeFlow.lean), proved equal to mergeL for all lists of fields (merge_flow_spec). The loop body of reduce is regenerated (Gen.FieldReduceFlow: the values appended in the two branches, beside the generated size test) and proved to be the match of Lentil.reduce / GroupZ.out on every non-empty group (reduce_group_out_spec, reduceZ_group_out_spec); the value of the pair branch of overlap is regenerated (Gen.FieldOverlapPair.overlapPairValue, calling Gen.Extent) and is overlapL on two fields (overlap_pair_value_spec). The test of the origin branch of _merge_slices (every slice = Ellipsis) is regenerated (Gen.FieldMergeOrigin.mergeSlicesOrigin) and shown to agree with the general slice formula mergeL uses everywhere: it holds exactly on the box (0,0,0,0), where the general slice of every member is the whole (1,1) canvas (merge_slices_origin_spec). The remaining value-carrying pieces are regenerated into Gen.FieldPublicFlow and run by Model/FieldPublicFlow.lean: the group construction of _reduce (reduce_init_flow_spec), the two constants of the many-branch of overlap (overlap_flow_spec: overlapFlow = overlapL for all lists), the tuple `_merge((a, b))` and the default enforce_overlap=True of merge (merge_public_flow_spec: = mergePublic), the r of combinations(range(len(fields)), r) in _disjoint (disjoint_scan_spec / disjoint_first_pair_spec: the scan is the index list of firstPair, for every n), the defaults intensity=False, weight=1 of insert (insert_defaults_spec). Field.shift (floats, tilt interface) is outside C06 and stays pinned. The container type of an offset (list / tuple / '
+               'accumulation terms of insert (Gen.FieldAccum; insertTerm_eq, insert_accum_spec, insert_mode_eq). _mul_broadcast is regenerated whole (Gen.FieldBroadcast.mulBroadcast: shape test, both size tests, broadcast targets, inherited offsets; the arrays enter through .shape/.size and np.broadcast_to as a flag) and proved equal to the broadcast step of Fld.mul for every pair not both one-element (mul_broadcast_spec, mul_via_gen_broadcast); the same function is regenerated a second time with shapes that may be () (Gen.mulBroadcastZ: a shape is the triple (ndim, d0, d1), () = (0, 1, 1)) and proved to return two 2-D operands, those of the 2-D translation on the 1x1 reading of 0-d data, whenever __mul__ goes to _mul_array (mul_broadcast_zd_spec: why ZFld.mul may run Fld.mul); the both-0-d product goes through _mul_scalar. Field._mul_array after that call is regenerated too (Gen.FieldMulArray.mulArrayIdx: both array_extent calls, the intersect test, intersection_slices, intersection_shift, calling Gen.Extent) and proved to be the index flow of Fld.mulArr for all fields (mul_array_spec; end to end on generated definitions: mul_via_gen); its array product `self_data[self_slice] * other_data[other_slice]`, the empty result and the argument order of the _mul_broadcast call are matched textually by the translator hook. Field.__init__ is regenerated (Gen.FieldInit: the offset default [0, 0] and the cached extent = array_extent(self.shape, self.offset); the data / pixelscale / tilt assignments and the property Field.shape are matched textually): the cached extent is Fld.extent and the pixel set of the data (field_init_extent_spec), the default is the origin-centred field (field_init_default_spec). The statements of _merge after the pixelscale guard are regenerated (Gen.FieldMergeFlow: np.zeros canvas of _merge_shape, slices = _merge_slices, `out[slc] += field.data` per field in zip order, Field(data=out, offset=_merge_offset); guard, zip order and the Field(...) arguments matched structurally) and run by Lentil.mergeFlowL (Model/FieldMergeFlow.lean), proved equal to mergeL for all lists of fields (merge_flow_spec). The loop body of reduce is regenerated (Gen.FieldReduceFlow: the values appended in the two branches, beside the generated size test) and proved to be the match of Lentil.reduce / GroupZ.out on every non-empty group (reduce_group_out_spec, reduceZ_group_out_spec); the value of the pair branch of overlap is regenerated (Gen.FieldOverlapPair.overlapPairValue, calling Gen.Extent) and is overlapL on two fields (overlap_pair_value_spec). The test of the origin branch of _merge_slices (every slice = Ellipsis) is regenerated (Gen.FieldMergeOrigin.mergeSlicesOrigin) and shown to agree with the general slice formula mergeL uses everywhere: it holds exactly on the box (0,0,0,0), where the general slice of every member is the whole (1,1) canvas (merge_slices_origin_spec). The remaining value-carrying pieces are regenerated into Gen.FieldPublicFlow and run by Model/FieldPublicFlow.lean: the group construction of _reduce (reduce_init_flow_spec), the two constants of the many-branch of overlap (overlap_flow_spec: overlapFlow = overlapL for all lists), the tuple `_merge((a, b))` and the default enforce_overlap=True of merge (merge_public_flow_spec: = mergePublic), the r of combinations(range(len(fields)), r) in _disjoint (disjoint_scan_spec / disjoint_first_pair_spec: the scan is the index list of firstPair, for every n), the defaults intensity=False, weight=1 of insert (insert_defaults_spec). The branch bodies of Field._mul_scalar are regenerated (Gen.FieldMulScalar: factors of `data = self.data * other.data` and the operand whose offset is kept) and run as mulScalarFlow, equal to Fld.mul on two one-element fields (mul_scalar_flow_spec). Field.shift (floats, tilt interface) is outside C06 and stays pinned. The container type of an offset (list / tuple / '
                'ndarray) enters the translation of _mul_scalar as a tag that np.array_equal ignores (mul_dispatch_spec); the model '
                'itself has integer offsets only, the harness draws the container types']
 
